@@ -219,7 +219,10 @@ func c01Random(r *rand.Rand, tier string) c01issCase {
 		if !spelling {
 			cs.CrashLock = []string{"", "stale"}[r.Intn(2)]
 			if tier == "thorough" { // an empty lock file costs 2 s, a fresh one 10 s
-				cs.CrashLock = []string{"", "stale", "stale", "empty", "empty", "fresh", "empty-fresh"}[r.Intn(7)]
+				cs.CrashLock = []string{"", "stale", "stale", "empty", "empty", "", "stale", "empty"}[r.Intn(8)]
+				if x := r.Intn(32); x < 2 { // about 11 s each
+					cs.CrashLock = []string{"fresh", "empty-fresh"}[x]
+				}
 			}
 		}
 	}
@@ -236,6 +239,13 @@ func runC01(tier string, seed int64, outdir string, replay string) error {
 		rc, err := loadReplay(replay)
 		if err != nil {
 			return err
+		}
+		if cl, _ := rc.Desc["class"].(string); cl == "free-running" {
+			var fc c01FreeCase
+			if err := json.Unmarshal(rc.In, &fc); err != nil {
+				return err
+			}
+			return c01FreeEmit(w, fc, 0)
 		}
 		var cs c01issCase
 		if err := json.Unmarshal(rc.In, &cs); err != nil {
@@ -286,6 +296,10 @@ func runC01(tier string, seed int64, outdir string, replay string) error {
 			return fmt.Errorf("corpus case slow holder: %v", err)
 		}
 		c01Emit(w, cs, o)
+	}
+	// free-running instances on one FileStorage directory (no gate; spec monitor only)
+	if err := c01FreeBatch(w, rand.New(rand.NewSource(seed+991)), map[string]int{"thorough": 25}[tier]+3); err != nil {
+		return err
 	}
 	r := rand.New(rand.NewSource(seed))
 	n := 1100
